@@ -9,16 +9,22 @@ Range table (the documented ranges; `size` is the destination's size):
 | operation | accepted | rejected with |
 |---|---|---|
 | `add_at`, `remove_at`, `replace_at`, `get_at` | `index < size` | `CC_ERR_OUT_OF_RANGE` |
-| `cc_list_add_all_at`, `cc_list_splice_at` (non-empty source) | `index ≤ size` | `CC_ERR_OUT_OF_RANGE` |
-| `cc_slist_add_all_at`, `cc_slist_splice_at` (non-empty source) | `index < size` | `CC_ERR_OUT_OF_RANGE` |
+| `cc_list_add_all_at`, `cc_list_splice_at`, **non-empty source** | `index ≤ size` | `CC_ERR_OUT_OF_RANGE` |
+| `cc_slist_add_all_at`, `cc_slist_splice_at`, **non-empty source** | `index < size` | `CC_ERR_OUT_OF_RANGE` |
+| the four bulk-at operations, **empty source** | every `index` (the C code returns `CC_OK` before the range check: `if (list2->size == 0) return CC_OK;`) | — nothing to insert, nothing changes: `bulk_empty_source_accepts_any_index` |
 | `sublist b e` | `b ≤ e < size` | `CC_ERR_INVALID_RANGE` |
 | `remove v`, `index_of v` | `v` present | `CC_ERR_VALUE_NOT_FOUND` / `CC_ERR_OUT_OF_RANGE` |
 | `remove_first/last`, `get_first/last`, `remove_all` | non-empty | `CC_ERR_VALUE_NOT_FOUND` |
 | `filter_mut`, `filter`, `reduce` | non-empty | `CC_ERR_OUT_OF_RANGE` |
 | `cc_list_to_array`, `cc_list_sort` | non-empty | `CC_ERR_INVALID_RANGE` |
+| iterator `remove`/`replace` (single and zip) | an element yielded and not removed | `CC_ERR_VALUE_NOT_FOUND` |
 
-The rejection theorems state the **whole result**: status, list state (nodes, `size`, `head`, `tail`)
-and ledger are returned exactly as they were — for every index in `Nat` (the models compare
+`CC_ERR_ALLOC` is not a rejection but a failure; its atomicity is `Properties/C08List.lean`.  Documented
+contract exclusions (not rejected by the C code, outside every theorem): iterator `add` without a
+current element, and `splice` between lists on different allocator triples.
+
+The rejection theorems state the **whole result**: status, list state (nodes, `size`, `head`, `tail`,
+triple) and the **whole allocator state** (`m' = m`) are returned exactly as they were — for every index in `Nat` (the models compare
 indices as the C code compares `size_t` values; no wrap-around is involved in these guards).
 
 Quantifiers: all list states satisfying the invariant (empty, single, any size), all arguments. -/
@@ -30,17 +36,25 @@ open CC.Spec.LSeq (Op Out Params)
 /-! ## error_is_inert -/
 
 /-- a history step that reports a status other than `CC_OK` and `CC_ERR_ALLOC` leaves both lists
-physically unchanged and the ledger balanced (doubly linked) -/
-theorem dlist_error_is_inert (P : Params) (s : Chain × Chain) (op : Op) (m : Mem) (h : PairOk s m) (e : Stat)
+physically unchanged and the allocator state exactly as it was, `m' = m` (doubly linked) -/
+theorem dlist_error_is_inert (P : Params) (s : Chain × Chain) (op : Op) (m : Mem) (h : PairOk s m)
+    (hc : SpliceOk s.1.triple s.2.triple op) (e : Stat)
     (hst : (DList.step P s op m).1.st = some e) (he : e ≠ .ok) (hea : e ≠ .errAlloc) :
-    (DList.step P s op m).2.1 = s ∧ (DList.step P s op m).2.2.live = m.live :=
-  C04.step_error_inert h (C04.dlist_step_refines P s op m h) e hst he hea
+    (DList.step P s op m).2.1 = s ∧ (DList.step P s op m).2.2 = m := by
+  refine ⟨(C04.step_error_inert h (C04.dlist_step_refines P s op m h hc) e hst he hea).1, ?_⟩
+  have hs : s = (ofList s.1.triple s.1.abs, ofList s.2.triple s.2.abs) := by rw [← h.1.eq, ← h.2.1.eq]
+  rw [hs] at hst ⊢
+  exact DList.step_error_mem P _ _ _ _ op m e hst he hea
 
 /-- the same for the singly linked list -/
-theorem slist_error_is_inert (P : Params) (s : Chain × Chain) (op : Op) (m : Mem) (h : PairOk s m) (e : Stat)
+theorem slist_error_is_inert (P : Params) (s : Chain × Chain) (op : Op) (m : Mem) (h : PairOk s m)
+    (hc : SpliceOk s.1.triple s.2.triple op) (e : Stat)
     (hst : (SList.step P s op m).1.st = some e) (he : e ≠ .ok) (hea : e ≠ .errAlloc) :
-    (SList.step P s op m).2.1 = s ∧ (SList.step P s op m).2.2.live = m.live :=
-  C04.step_error_inert h (C04.slist_step_refines P s op m h) e hst he hea
+    (SList.step P s op m).2.1 = s ∧ (SList.step P s op m).2.2 = m := by
+  refine ⟨(C04.step_error_inert h (C04.slist_step_refines P s op m h hc) e hst he hea).1, ?_⟩
+  have hs : s = (ofList s.1.triple s.1.abs, ofList s.2.triple s.2.abs) := by rw [← h.1.eq, ← h.2.1.eq]
+  rw [hs] at hst ⊢
+  exact SList.step_error_mem P _ _ _ _ op m e hst he hea
 
 /-- iterator calls that report `CC_ITER_END` or `CC_ERR_VALUE_NOT_FOUND` return list, cursor and
 ledger exactly as they were — in every state, invariant or not -/
@@ -57,6 +71,36 @@ theorem iter_error_is_inert (l : Chain) (m : Mem) :
   · intro it h; simp [DList.iterRemove, DList.diterRemove, DList.iterReplace, h]
   · intro it h; simp [SList.iterNext, h]
   · intro it h; simp [SList.iterRemove, SList.iterReplace, h]
+
+/-- the zip iterators: `next` at the end of either list reports `CC_ITER_END`; `remove`/`replace` with
+nothing yielded (or the yielded pair already removed) report `CC_ERR_VALUE_NOT_FOUND`; both lists, the
+cursor and the ledger are returned exactly as they were — in every state -/
+theorem zip_error_is_inert (l1 l2 : Chain) (m : Mem) :
+    (∀ z : DList.ZipIter, z.next1 = none ∨ z.next2 = none → DList.zipNext l1 l2 z m = (.iterEnd, none, z, m)) ∧
+    (∀ z : DList.ZipIter, z.last1 = none ∨ z.last2 = none →
+      DList.zipRemove l1 l2 z m = (.errValueNotFound, none, l1, l2, z, m) ∧
+      ∀ x1 x2, DList.zipReplace l1 l2 z x1 x2 m = (.errValueNotFound, none, l1, l2, m)) ∧
+    (∀ z : SList.ZipIter, z.next1 = none ∨ z.next2 = none → SList.zipNext l1 l2 z m = (.iterEnd, none, z, m)) ∧
+    (∀ z : SList.ZipIter, z.cur1 = none ∨ z.cur2 = none →
+      SList.zipRemove l1 l2 z m = (.errValueNotFound, none, l1, l2, z, m) ∧
+      ∀ x1 x2, SList.zipReplace l1 l2 z x1 x2 m = (.errValueNotFound, none, l1, l2, m)) := by
+  refine ⟨?_, ?_, ?_, ?_⟩
+  · intro z h; rcases h with h | h <;> simp [DList.zipNext, h]
+  · intro z h; rcases h with h | h <;> simp [DList.zipRemove, DList.zipReplace, h]
+  · intro z h; rcases h with h | h <;> simp [SList.zipNext, h]
+  · intro z h; rcases h with h | h <;> simp [SList.zipRemove, SList.zipReplace, h]
+
+/-- … and from related states (`ZipRel`, i.e. reachable through the API) these are exactly the
+situations in which the ideal zip cursor has no current pair -/
+theorem zip_nothing_yielded_rejected (t t2 : Triple) (xs ys : List Nat) (c : LSeq.Cursor) (m : Mem) (hc : c.cur = none) :
+    (∀ z, DList.ZipRel xs ys c z →
+      DList.zipRemove (ofList t xs) (ofList t2 ys) z m = (.errValueNotFound, none, ofList t xs, ofList t2 ys, z, m) ∧
+      ∀ x1 x2, DList.zipReplace (ofList t xs) (ofList t2 ys) z x1 x2 m = (.errValueNotFound, none, ofList t xs, ofList t2 ys, m)) ∧
+    (∀ z, SList.ZipRel xs ys c z →
+      SList.zipRemove (ofList t xs) (ofList t2 ys) z m = (.errValueNotFound, none, ofList t xs, ofList t2 ys, z, m) ∧
+      ∀ x1 x2, SList.zipReplace (ofList t xs) (ofList t2 ys) z x1 x2 m = (.errValueNotFound, none, ofList t xs, ofList t2 ys, m)) :=
+  ⟨fun z h => (zip_error_is_inert _ _ m).2.1 z (Or.inl (by rw [h.lst1, hc])),
+   fun z h => (zip_error_is_inert _ _ m).2.2.2 z (Or.inl (by rw [h.cur1, hc]))⟩
 
 /-! ## out_of_range_rejected -/
 
@@ -94,6 +138,17 @@ theorem slist_bulk_index_rejected (l1 l2 : Chain) (h1 : l1.Inv) (h2 : l2.Inv) (i
   rw [h1.eq, h2.eq, SList.addAllAt_ofList, SList.spliceAt_ofList]
   simp [LSeq.addAllAt, LSeq.spliceAt, hne, hn]
 
+/-- **bulk operations with an empty source accept every index**: `add_all_at` / `splice_at` of both
+lists return `CC_OK` for *any* `index` — also far outside the destination — when the source is empty
+(the C code tests `list2->size == 0` before the range); both lists and the allocator state are
+returned exactly as they were.  (This is the behaviour of the C code, mirrored in the range table
+above; the documentation does not mention it.) -/
+theorem bulk_empty_source_accepts_any_index (l1 l2 : Chain) (h1 : l1.Inv) (h2 : l2.Inv) (i : Nat) (m : Mem) (he : l2.abs = []) :
+    DList.addAllAt l1 l2 i m = (.ok, l1, m) ∧ DList.spliceAt l1 l2 i m = (.ok, l1, l2, m) ∧
+    SList.addAllAt l1 l2 i m = (.ok, l1, m) ∧ SList.spliceAt l1 l2 i m = (.ok, l1, l2, m) := by
+  rw [h1.eq, h2.eq, DList.addAllAt_ofList, DList.spliceAt_ofList, SList.addAllAt_ofList, SList.spliceAt_ofList]
+  simp [LSeq.addAllAt, LSeq.spliceAt, he]
+
 /-- **`sublist`**: every range with `b > e` or `e ≥ size` is rejected, nothing allocated, no object -/
 theorem sublist_range_rejected (l : Chain) (h : l.Inv) (b e : Nat) (m : Mem) (hr : b > e ∨ e ≥ l.abs.length) :
     DList.sublist l b e m = (.errInvalidRange, none, m) ∧ SList.sublist l b e m = (.errInvalidRange, none, m) := by
@@ -105,8 +160,8 @@ theorem sublist_range_rejected (l : Chain) (h : l.Inv) (b e : Nat) (m : Mem) (hr
 /-- an absent value: `remove` reports not-found, `index_of` out-of-range, `contains` 0; nothing changes -/
 theorem absent_value_rejected (cmp : Nat → Nat → Int) (l : Chain) (h : l.Inv) (x : Nat) (m : Mem) (hx : x ∉ l.abs) :
     DList.remove l x m = (.errValueNotFound, none, l, m) ∧ SList.remove l x m = (.errValueNotFound, none, l, m) ∧
-    DList.contains l x = 0 ∧ SList.contains l x = 0 ∧ SList.indexOf l x = (.errOutOfRange, none) ∧
-    ((∀ y, y ∈ l.abs → cmp y x ≠ 0) → DList.indexOf cmp l x = (.errOutOfRange, none)) := by
+    DList.contains l x m = (0, m) ∧ SList.contains l x m = (0, m) ∧ SList.indexOf l x m = (.errOutOfRange, none, m) ∧
+    ((∀ y, y ∈ l.abs → cmp y x ≠ 0) → DList.indexOf cmp l x m = (.errOutOfRange, none, m)) := by
   rw [h.eq, DList.remove_ofList, SList.remove_ofList, DList.contains_ofList, SList.contains_ofList, SList.indexOf_ofList,
     DList.indexOf_ofList]
   have hc : ∀ y, y ∈ l.abs → LSeq.cmpNum y x ≠ 0 := by
@@ -118,32 +173,39 @@ theorem absent_value_rejected (cmp : Nat → Nat → Int) (l : Chain) (h : l.Inv
     have : l.abs.findIdx? (fun y => c y x == 0) = none := by
       rw [List.findIdx?_eq_none_iff]; intro y hy; simpa using hcc y hy
     simp [LSeq.indexOf, this]
-  refine ⟨by simp [LSeq.remove, hx], by simp [LSeq.remove, hx], by simp only [LSeq.contains]; exact List.count_eq_zero_of_not_mem hx, by simp only [LSeq.contains]; exact List.count_eq_zero_of_not_mem hx,
-    hidx _ hc, fun hcc => hidx cmp hcc⟩
+  have hcnt : LSeq.contains l.abs x = 0 := by simp only [LSeq.contains]; exact List.count_eq_zero_of_not_mem hx
+  refine ⟨by simp [LSeq.remove, hx], by simp [LSeq.remove, hx], by rw [hcnt], by rw [hcnt],
+    by rw [hidx _ hc], fun hcc => by rw [hidx cmp hcc]⟩
 
 /-- an empty list: removals and accessors report their documented error, the filters and `reduce`
 report out-of-range, `cc_list_to_array`/`cc_list_sort` invalid-range; nothing changes, nothing is allocated -/
-theorem empty_list_rejected (p : Nat → Bool) (f : Nat → Nat → Nat) (sortFn : List Nat → List Nat) (m : Mem) :
-    DList.removeFirst (ofList []) m = (.errValueNotFound, none, ofList [], m) ∧
-    DList.removeLast (ofList []) m = (.errValueNotFound, none, ofList [], m) ∧
-    DList.removeAll (ofList []) m = (.errValueNotFound, [], ofList [], m) ∧
-    DList.getFirst (ofList []) m = (.errValueNotFound, none, m) ∧ DList.getLast (ofList []) m = (.errValueNotFound, none, m) ∧
-    DList.filterMut p (ofList []) m = (.errOutOfRange, ofList [], m) ∧ DList.filter p (ofList []) m = (.errOutOfRange, none, m) ∧
-    DList.reduce f (ofList []) m = (.errOutOfRange, none, [], m) ∧
-    DList.toArray (ofList []) m = (.errInvalidRange, none, m) ∧ DList.sort sortFn (ofList []) m = (.errInvalidRange, ofList [], m) ∧
-    SList.removeFirst (ofList []) m = (.errValueNotFound, none, ofList [], m) ∧
-    SList.removeLast (ofList []) m = (.errValueNotFound, none, ofList [], m) ∧
-    SList.removeAll (ofList []) m = (.errValueNotFound, [], ofList [], m) ∧
-    SList.getFirst (ofList []) m = (.errValueNotFound, none, m) ∧ SList.getLast (ofList []) m = (.errValueNotFound, none, m) ∧
-    SList.filterMut p (ofList []) m = (.errOutOfRange, ofList [], m) ∧ SList.filter p (ofList []) m = (.errOutOfRange, none, m) := by
+theorem empty_list_rejected (p : Nat → Bool) (f : Nat → Nat → Nat) (sortFn : List Nat → List Nat) (t : Triple) (m : Mem) :
+    DList.removeFirst (ofList t []) m = (.errValueNotFound, none, ofList t [], m) ∧
+    DList.removeLast (ofList t []) m = (.errValueNotFound, none, ofList t [], m) ∧
+    DList.removeAll (ofList t []) m = (.errValueNotFound, [], ofList t [], m) ∧
+    DList.getFirst (ofList t []) m = (.errValueNotFound, none, m) ∧ DList.getLast (ofList t []) m = (.errValueNotFound, none, m) ∧
+    DList.filterMut p (ofList t []) m = (.errOutOfRange, ofList t [], m) ∧ DList.filter p (ofList t []) m = (.errOutOfRange, none, m) ∧
+    DList.reduce f (ofList t []) m = (.errOutOfRange, none, [], m) ∧
+    DList.toArray (ofList t []) m = (.errInvalidRange, none, m) ∧ DList.sort sortFn (ofList t []) m = (.errInvalidRange, ofList t [], m) ∧
+    SList.removeFirst (ofList t []) m = (.errValueNotFound, none, ofList t [], m) ∧
+    SList.removeLast (ofList t []) m = (.errValueNotFound, none, ofList t [], m) ∧
+    SList.removeAll (ofList t []) m = (.errValueNotFound, [], ofList t [], m) ∧
+    SList.getFirst (ofList t []) m = (.errValueNotFound, none, m) ∧ SList.getLast (ofList t []) m = (.errValueNotFound, none, m) ∧
+    SList.filterMut p (ofList t []) m = (.errOutOfRange, ofList t [], m) ∧ SList.filter p (ofList t []) m = (.errOutOfRange, none, m) := by
   simp [DList.removeFirst_ofList, DList.removeLast_ofList, DList.removeAll_ofList, DList.getFirst_ofList, DList.getLast_ofList,
     DList.filterMut_ofList, DList.filter_ofList, DList.reduce_ofList, DList.toArray_ofList,
     SList.removeFirst_ofList, SList.removeLast_ofList, SList.removeAll_ofList, SList.getFirst_ofList, SList.getLast_ofList,
     SList.filterMut_ofList, SList.filter_ofList, LSeq.removeFirst, LSeq.removeLast, LSeq.removeAll, LSeq.getFirst, LSeq.getLast,
     LSeq.filterMut, LSeq.filter, LSeq.reduce, LSeq.toArray, Mem.freeN, DList.sort]
 
-/-- the unique empty state satisfying the invariant is `ofList []`, so the theorem above speaks
+/-- the unique empty state (per triple) satisfying the invariant is `ofList t []`, so the theorem above speaks
 about every reachable empty list -/
-theorem empty_state_unique (l : Chain) (h : l.Inv) (he : l.abs = []) : l = ofList [] := by rw [h.eq, he]
+theorem empty_state_unique (l : Chain) (h : l.Inv) (he : l.abs = []) : l = ofList l.triple [] := by
+  have := h.eq; rw [he] at this; exact this
+
+/-! ## Non-vacuity -/
+example : DList.addAllAt (ofList .conf [1, 2]) (ofList .libc []) 99 {} = (.ok, ofList .conf [1, 2], {}) ∧
+    SList.spliceAt (ofList .conf [1, 2]) (ofList .conf []) 99 {} = (.ok, ofList .conf [1, 2], ofList .conf [], {}) ∧
+    DList.addAllAt (ofList .conf [1, 2]) (ofList .libc [5]) 3 {} = (.errOutOfRange, ofList .conf [1, 2], {}) := by decide
 
 end CC.Properties.C16List
